@@ -155,6 +155,33 @@ func ruleFrame(p *Prog, r *Report) {
 				return len(rets) == 1 && rets[0][0].K == KPtr && rets[0][0].S == "p0"
 			}})
 	}
+	// SetWaitBit on a message whose wait bit is already decided never refuses,
+	// whatever the argument and the function code are
+	if fn := p.MustFunc(r, "ast", "(*DataMessage).SetWaitBit"); fn != nil {
+		key := rule + ":ast.(*DataMessage).SetWaitBit:decided-never-refuses"
+		var bad []string
+		for _, w := range []int64{0, 1} {
+			for _, arg := range []bool{false, true} {
+				for _, f := range []int64{0, 1, 2, 255} {
+					in := NewInterp(p)
+					in.PathBind["p0.waitBit"] = int64Val(w)
+					in.PathBind["p0.function"] = int64Val(f)
+					args := defaultArgs(fn)
+					args[1] = boolVal(arg)
+					out := in.Run(fn, args, nil)
+					rets := out.Frame.ReturnVals()
+					if out.CanPanic || len(rets) != 1 || rets[0][0].K != KPtr || rets[0][0].S != "p0" {
+						bad = append(bad, fmt.Sprintf("wait bit %d, function %d, SetWaitBit(%v): can panic=%v, returns the receiver=%v", w, f, arg, out.CanPanic, len(rets) == 1 && rets[0][0].K == KPtr && rets[0][0].S == "p0"))
+					}
+				}
+			}
+		}
+		if len(bad) > 0 {
+			r.bad(rule, key, p.Pos(fn.Pos()), "a message whose wait bit is already decided must come back unchanged: "+strings.Join(firstN(bad, 3), "; "))
+		} else {
+			r.ok(rule, key, p.Pos(fn.Pos()), "for wait bit 0 and 1, both arguments and even/odd function codes the receiver itself is returned and no refusal is reachable")
+		}
+	}
 	r.Floor(rule, 25)
 }
 
